@@ -33,12 +33,16 @@ assert patch.strip(), "no source change in worktree"
 r = sh(f"cd {wt} && timeout 600 {PY} -m pytest -q -p no:cacheprovider tests 2>&1 | tail -1", env=env)
 tests_line = r.stdout.strip()
 d_with = sh(f"cd {wt} && timeout 300 {PY} {demo}", env=env)
-sh(f"git -C {wt} stash -q -- src")
+# (git stash is shared between worktrees of one repository - never use it here; reverse-apply the patch instead)
+pfile = os.path.join(wt, ".eval_seed.patch")
+open(pfile, "w").write(patch)
+assert sh(f"git -C {wt} apply -R {pfile}").returncode == 0, "cannot reverse the change"
 try:
     d_without = sh(f"cd {wt} && timeout 300 {PY} {demo}", env=env)
 finally:
-    sh(f"git -C {wt} stash pop -q")
-assert sh(f"git -C {wt} diff -- src").stdout == patch, "stash pop did not restore the change"
+    assert sh(f"git -C {wt} apply {pfile}").returncode == 0, "cannot re-apply the change"
+    os.remove(pfile)
+assert sh(f"git -C {wt} diff -- src").stdout == patch, "the change was not restored"
 print("tests with change:", tests_line)
 print("demo with change   rc=", d_with.returncode, (d_with.stdout + d_with.stderr).strip().splitlines()[-1:] )
 print("demo without change rc=", d_without.returncode, (d_without.stdout + d_without.stderr).strip().splitlines()[-1:])
